@@ -16,6 +16,23 @@ use std::rc::Rc;
 pub const BIN_OPS: [&str; 8] = ["and", "or", "xor", "nor", "nand", "implies", "eq", "implies_rev"];
 
 pub fn apply_engine<S: BDDSymbol>(env: &BDDEnv<S>, op: &str, a: &Rc<BDD<S>>, b: &Rc<BDD<S>>) -> Rc<BDD<S>> {
+    // every seventh call hands the engine private copies it becomes the sole owner of
+    thread_local!(static CALLS: std::cell::Cell<u64> = const { std::cell::Cell::new(0) });
+    let k = CALLS.with(|c| { c.set(c.get() + 1); c.get() });
+    if k % 7 == 0 {
+        let (a2, b2) = (crate::conv::deep_copy(a), crate::conv::deep_copy(b));
+        return match op {
+            "and" => env.and(a2, b2),
+            "or" => env.or(a2, b2),
+            "xor" => env.xor(a2, b2),
+            "nor" => env.nor(a2, b2),
+            "nand" => env.nand(a2, b2),
+            "implies" => env.implies(a2, b2),
+            "implies_rev" => env.implies(b2, a2),
+            "eq" => env.eq(a2, b2),
+            _ => unreachable!("unknown op {}", op),
+        };
+    }
     match op {
         "and" => env.and(Rc::clone(a), Rc::clone(b)),
         "or" => env.or(Rc::clone(a), Rc::clone(b)),
@@ -520,7 +537,7 @@ fn language_connectives(st: &mut Stats) {
     let orderings: [&[(&str, usize)]; 7] = [&[], &[("x", 0)], &[("x", 1)], &[("x", 0), ("z", 3)], &[("z", 4), ("x", 2)], &[("y", 7), ("x", 3), ("z", 5)], &[("z", 1), ("y", 0)]];
     let forms = [
         "x & y", "x and y", "x * y", "x | y", "x or y", "x + y", "x ^ y", "x xor y", "x nor y", "x nand y", "x => y", "x implies y", "x in y", "x <= y", "x <=> y", "x iff y", "x eq y", "-x", "!x", "not x",
-        "if x then y else z", "if z then x else y", "x & !y", "(x | y) & -(x & y)", "x <=> (y ^ z)", "(x => y) & (y => z) => (x => z)",
+        "if x then y else z", "if z then x else y", "x & !y", "-x => -y", "!x <= !y", "not x in not y", "-x implies -y", "-x ^ -y", "-x <=> -y", "-x & -y", "-x | -y", "-x nor -y", "-x nand -y", "-(x & z) => -(y | z)", "-(x | z) <= -(y & z)", "--x => -y", "false <= x", "x <= false", "true => x", "x => true", "false nor x", "true nand x", "false | x", "true & x", "x ^ true", "x <=> false", "if true then x else y", "if false then x else y", "(x | y) & -(x & y)", "x <=> (y ^ z)", "(x => y) & (y => z) => (x => z)",
     ];
     for ord in orderings {
         for text in forms {
